@@ -845,11 +845,17 @@ impl<'a> Explorer<'a> {
 /// Build a script prefix by opcode *names*: at each step pick the named opcode among the enabled ones
 /// (default answers for all value draws). Returns the representative of the reached state.
 pub fn scenario(ex: &Explorer, frame: bool, plan: &[Vec<u8>]) -> Result<Rep, String> {
+    let p2: Vec<(Vec<u8>, Vec<u8>)> = plan.iter().map(|w| (w.clone(), vec![])).collect();
+    scenario_vals(ex, frame, &p2)
+}
+
+/// like `scenario`, with raw answer bytes for the value draws of each step (appended after the choice bytes)
+pub fn scenario_vals(ex: &Explorer, frame: bool, plan: &[(Vec<u8>, Vec<u8>)]) -> Result<Rep, String> {
     let mut script: Vec<u8> = if ex.base_cfg.proto >= 4 { vec![frame as u8] } else { vec![] };
     let (_c, _r, tr0) = ex.run(&script, 0);
     let mut enabled = tr0.loop_end.as_ref().map(|x| x.0.clone()).ok_or("no LoopEnd")?;
     script.truncate(tr0.consumed);
-    for (k, wants) in plan.iter().enumerate() {
+    for (k, (wants, vals)) in plan.iter().enumerate() {
         // first preference that is enabled
         let (idx, want) = wants
             .iter()
@@ -899,7 +905,20 @@ pub fn scenario(ex: &Explorer, frame: bool, plan: &[Vec<u8>]) -> Result<Rep, Str
                 return Err(format!("scenario: step {k} could not be steered to {}", lexer::name(want)));
             }
         }
-        script.resize(tr.consumed, 0);
+        if !vals.is_empty() {
+            // value answers follow the choice draws of this step
+            let choice_end = tr.steps.last().map(|st| st.draws.iter().filter(|d| d.is_choice).map(|d| d.off + d.width).max().unwrap_or(script.len())).unwrap_or(script.len());
+            script.truncate(choice_end.min(script.len()));
+            script.resize(choice_end, 0);
+            script.extend_from_slice(vals);
+            let (_c, _r, tr2) = ex.run(&script, k + 1);
+            if tr2.steps.len() != k + 1 || tr2.steps.last().and_then(|s| s.chosen) != Some(want) {
+                return Err(format!("scenario: value bytes changed the choice at step {k}"));
+            }
+            tr = tr2;
+        }
+        script.resize(tr.consumed.max(script.len().min(tr.consumed)), 0);
+        script.truncate(tr.consumed);
         enabled = tr.loop_end.as_ref().map(|x| x.0.clone()).ok_or("no LoopEnd")?;
     }
     Ok(Rep { script, k: plan.len(), enabled })
